@@ -340,10 +340,11 @@ def kill_tree(p):
         pass
 
 
-def reap_helpers(repo):
-    """kill helper processes a killed monorail left behind (they have the repo dir as cwd prefix)"""
+def reap_helpers(repo, keep=()):
+    """kill helper processes a killed monorail left behind (they have the repo dir as cwd prefix);
+    `keep`: pids to leave alone (a `log tail` listener that is still relaying)"""
     for pid in os.listdir("/proc"):
-        if not pid.isdigit():
+        if not pid.isdigit() or int(pid) in keep:
             continue
         try:
             cwd = os.readlink("/proc/%s/cwd" % pid)
